@@ -390,6 +390,7 @@ func (g *gen) execInstr(fr *frame, cur *node, st *State, ins ssa.Instruction) *n
 		fr.vals[x] = app("obj", g.alloc(cur, st))
 		fr.closures[x] = x
 		g.closurePurity(fr, cur, st, x)
+		g.captureRequires(fr, cur, st, x)
 	case *ssa.Slice:
 		g.execSlice(fr, cur, st, x)
 	case *ssa.Call:
@@ -997,6 +998,39 @@ func nonEscaping(a *ssa.Alloc) bool {
 // closurePurity: a closure whose contract is effectfree is a mathematical function of its
 // arguments (and of the captured state at creation time): its ensures clauses, universally
 // quantified over the parameters, become facts about apply<T>(closure, args).
+// captureRequires: "requires [captured...]" clauses of a closure's contract speak about its captured
+// variables only; they are assumed in the closure's own VC and proved here, where the closure is made.
+func (g *gen) captureRequires(fr *frame, n *node, st *State, mc *ssa.MakeClosure) {
+	fn := mc.Fn.(*ssa.Function)
+	fs := g.P.spec.Funcs[funcKey(fn)]
+	if fs == nil {
+		return
+	}
+	var e *env
+	for _, c := range fs.Requires {
+		if !strings.HasPrefix(c.Label, "captured") {
+			continue
+		}
+		if e == nil {
+			e = &env{g: g, vars: map[string]binding{}, st: st, old: st, pkgPath: fs.PkgPath, imports: fs.Imports}
+			for k, fv := range fn.FreeVars {
+				e.vars[fv.Name()] = binding{g.val(fr, mc.Bindings[k]), xtOf(fv.Type())}
+				if pt, ok := fv.Type().Underlying().(*types.Pointer); ok && finalFreeVar(fv) {
+					if ref, ok := g.val(fr, mc.Bindings[k]).(string); ok {
+						e.vars[fv.Name()] = binding{g.loadAt(st, ref, pt.Elem()), xtOf(pt.Elem())}
+					}
+				}
+			}
+		}
+		t, err := e.trAssert(c.E)
+		if err != nil {
+			g.errorf("%s: closure %s requires [%s]: %v", g.name, fs.Key, c.Label, err)
+			continue
+		}
+		g.addObl(n, "capture", "capture:"+shortKey(fs.Key)+":"+c.Label, c.Src, g.pos(mc.Pos()), t, false)
+	}
+}
+
 func (g *gen) closurePurity(fr *frame, n *node, st *State, mc *ssa.MakeClosure) {
 	fn := mc.Fn.(*ssa.Function)
 	fs := g.P.spec.Funcs[funcKey(fn)]
